@@ -640,8 +640,25 @@ class IH5Group(IH5InnerNode):
         return self.create_group(name)
 
     def require_dataset(self, name: str, *args, **kwds) -> IH5Dataset:
+        # like h5py: existing dataset must have the shape and a compatible type
+        exact = kwds.pop("exact", False)
         if (n := self._require_node(name, IH5Dataset)) is not None:
-            # TODO: check dimensions etc, copy into patch if it fits
+            raw = self._files[n._cidx][n._gpath]  # RAW
+            shape = args[0] if args else kwds.get("shape")
+            dtype = args[1] if len(args) > 1 else kwds.get("dtype")
+            if shape is not None:
+                shape = (shape,) if isinstance(shape, int) else tuple(shape)
+                if shape != raw.shape:
+                    msg = f"Shapes do not match (existing {raw.shape} vs new {shape})"
+                    raise TypeError(msg)
+            if dtype is not None:
+                dtype = np.dtype(dtype)
+                if exact and dtype != raw.dtype:
+                    msg = f"Datatypes do not exactly match (existing {raw.dtype} vs new {dtype})"
+                    raise TypeError(msg)
+                if not np.can_cast(dtype, raw.dtype):
+                    msg = f"Datatypes cannot be safely cast (existing {raw.dtype} vs new {dtype})"
+                    raise TypeError(msg)
             return n
         return self.create_dataset(name, *args, **kwds)
 
